@@ -433,7 +433,11 @@ func loadHVtmx(hheaRaw, htmxRaw []byte, numGlyphs int) (*tables.Hhea, tables.Hmt
 		return nil, tables.Hmtx{}, err
 	}
 
-	hmtx, _, err := tables.ParseHmtx(htmxRaw, int(hhea.NumOfLongMetrics), numGlyphs-int(hhea.NumOfLongMetrics))
+	lsbCount := numGlyphs - int(hhea.NumOfLongMetrics)
+	if lsbCount < 0 { // invalid table : there is no room for additional side bearings
+		lsbCount = 0
+	}
+	hmtx, _, err := tables.ParseHmtx(htmxRaw, int(hhea.NumOfLongMetrics), lsbCount)
 	if err != nil {
 		return nil, tables.Hmtx{}, err
 	}
